@@ -840,3 +840,13 @@ Proof.
   intros Hc He Hn i o t H.
   destruct (own_outcome_lemma c evs Hc He i o t H) as (cl & A & B & C & [[_ D]|D]); [now apply Hn in D | eauto].
 Qed.
+
+(* the pop of an armed retention timer finds its key (no KeyError in a timer callback) *)
+Lemma ret_pop_defined_lemma c evs :
+  cfg_ok c -> Forall ev_ok evs ->
+  let s := snd (run c evs) in
+  forall dl k, In (dl, k) (rtimers s) -> lookup (ret s) k <> None.
+Proof.
+  intros Hc He s dl k H. destruct (ret_timer_sound_lemma c evs Hc He dl k H) as (f & _ & _ & E & _).
+  fold s in E. congruence.
+Qed.
